@@ -32,6 +32,10 @@ pub const FAMILIES: &[(&str, u64)] = &[
     ("many-excl", 1),
     ("many-excl-hints", 1),
     ("many-soft", 1),
+    ("huge", 1),
+    ("huge-hints", 1),
+    ("hub", 1),
+    ("hub-hints", 1),
 ];
 
 /// Checks shared with other monitors: validity of an `Ok` result against the reference rules and
